@@ -60,10 +60,10 @@ def plan(tier, seed):
     else:
         for i in range(10):
             shards.append(dict(
-                name=f'rt{i}', mode='rt', kind='rt', secs=90, batch=[20, 40, 80][i % 3],
+                name=f'rt{i}', mode='rt', kind='rt', secs=240, batch=[20, 40, 80][i % 3],
                 p_yield=[0.0, 0.02, 0.1, 0.2][i % 4], burners=[0, 4, 16][i % 3],
-                oversleep=i % 2 == 0, slow=i % 3 != 1, hard_timeout=400))
-        for p, (f, n) in enumerate(split(120000, 6)):
+                oversleep=i % 2 == 0, slow=i % 3 != 1, hard_timeout=700))
+        for p, (f, n) in enumerate(split(480000, 6)):
             shards.append(dict(name=f'nrt{p}', mode='nrt', kind='nrt', first_case=f,
                                n=n, secs=500, hard_timeout=700))
     return shards
